@@ -632,7 +632,11 @@ func mergeSummary(a *Aggregate, s *Summary) {
 func report(p Property, tier string, seed int64, a *Aggregate, broken []string, wall time.Duration, race bool) int {
 	vdir := VerifDir()
 	id := p.ID()
-	_ = os.MkdirAll(filepath.Join(vdir, "evidence", "replay"), 0o755)
+	evDir := filepath.Join(vdir, "evidence")
+	if d := os.Getenv("VERIF_EVIDENCE_DIR"); d != "" {
+		evDir = d // selftest runs against scratch copies must not overwrite the evidence of the real tree
+	}
+	_ = os.MkdirAll(filepath.Join(evDir, "replay"), 0o755)
 
 	sort.Slice(a.Violations, func(i, j int) bool { return a.Violations[i].Index < a.Violations[j].Index })
 	all := append([]ViolationRec{}, a.Crashes...)
@@ -665,9 +669,9 @@ func report(p Property, tier string, seed int64, a *Aggregate, broken []string, 
 		if n >= 10 {
 			break
 		}
-		path := filepath.Join(vdir, "evidence", "replay", fmt.Sprintf("%s-%d-%d.json", id, seed, v.Index))
+		path := filepath.Join(evDir, "replay", fmt.Sprintf("%s-%d-%d.json", id, seed, v.Index))
 		if v.Index < 0 {
-			path = filepath.Join(vdir, "evidence", "replay", fmt.Sprintf("%s-%d-race%d.json", id, seed, n))
+			path = filepath.Join(evDir, "replay", fmt.Sprintf("%s-%d-race%d.json", id, seed, n))
 		}
 		b, _ := json.MarshalIndent(map[string]any{"property": id, "seed": seed, "tier": tier, "index": v.Index, "what": v.What, "detail": v.Detail}, "", " ")
 		_ = os.WriteFile(path, b, 0o644)
@@ -732,7 +736,7 @@ func report(p Property, tier string, seed int64, a *Aggregate, broken []string, 
 		"violations":  len(all),
 	}
 	b, _ := json.MarshalIndent(ev, "", " ")
-	_ = os.WriteFile(filepath.Join(vdir, "evidence", id+".json"), b, 0o644)
+	_ = os.WriteFile(filepath.Join(evDir, id+".json"), b, 0o644)
 
 	os.Stdout.Write(out.Bytes())
 	for _, br := range broken {
